@@ -14,12 +14,17 @@ the emitted observation after EVERY step.  The driver holds no oracle: every exp
 `PrintT(<<"CASE", ToJson(..)>>)` line.  What the driver does compute is the projection of Python objects to the
 integers / strings / rationals the specification talks about.
 
-Histories come from three kinds of TLC runs per module:
-  * exhaustive, history hidden by VIEW HistView: the design-level check (all invariants / action properties, coverage)
-  * exhaustive, VIEW OpView = (state, last operation with its arguments): one emitted history for every operation in
-    every state it can be applied in (bounded depth); plus every history of length 2 of a one-name world with all
-    container forms / entry points
-  * -simulate: random walks of length 8..9 in a larger scope (three names, two files; any constructor configuration)
+Histories come from these TLC runs per module (one JVM each, <= 2 workers, at most 4 at a time):
+  * exhaustive, history hidden by VIEW HistView: the design-level check (all invariants / action properties, coverage);
+    for MSMLife additionally over EVERY assignment set of the MSMObj scope S=2 with any constructor configuration
+  * exhaustive with emission, VIEW OpView = (state, last operation with its arguments) and VIEW TransView = (observation
+    before, operation, state after): one emitted history per operation and resulting state / per distinct transition
+    (bounded depth) -- a plain state view would never emit an operation whose result some other operation reached first
+  * TrimMapping: every history of length 2 of a one-name world with all container forms / entry points;
+    MSMLife: every life cycle of 4 (thorough: 5) pairwise different operations (OpBudget = 1)
+  * -simulate: random walks of length 8..9 in a larger scope (three names, two files; any constructor configuration),
+    no operation kind more than 3 (2) times per walk
+A history that is a proper prefix of another emitted one is not replayed separately.
 
 Gates.  On the pinned tree some input classes deviate from the definition.  The specifications keep the definition;
 the classes are switched off by the named constants below (FALSE = class not generated), so the part is silent on
@@ -531,19 +536,23 @@ def run_part(ctx):
                            % (3 if quick else 4)))
     jobs.append(dict(module="TrimMapping", cwd=d, workers=1, timeout=900, java_opts=("-Xmx3g",),
                      cfg=_cfg(d, "tm_op.cfg", tm(NOrig=2 if quick else 3, Emit=True), ["EmitInv"], [], "OpView"),
-                     label="TrimMapping every operation in every state of depth <= 2 (VIEW OpView)"))
+                     label="TrimMapping every operation in every state of depth <= 2 (VIEW OpView), 2 names"))
+    jobs.append(dict(module="TrimMapping", cwd=d, workers=1, timeout=900, java_opts=("-Xmx3g",),
+                     cfg=_cfg(d, "tm_tr.cfg", tm(NOrig=2, Slots=1 if quick else 2, Emit=True), ["EmitInv"], [], "TransView"),
+                     label="TrimMapping every distinct transition (state before, operation, state after) of depth <= 3, "
+                           "%d name(s), 1 file (VIEW TransView)" % (1 if quick else 2)))
     jobs.append(dict(module="TrimMapping", cwd=d, workers=1, timeout=900, java_opts=("-Xmx2g",),
                      cfg=_cfg(d, "tm_h2.cfg", tm(NOrig=2, Slots=1, Depth=2, Emit=True, Variants=True), ["EmitFull"]),
                      label="TrimMapping all histories of length 2, one name, every container form / entry point"))
     nw = 300 if quick else 3000
     jobs.append(dict(module="TrimMapping", cwd=d, workers=1, timeout=900, java_opts=("-Xmx2g",),
                      cfg=_cfg(d, "tm_sim.cfg", tm(NOrig=3, NTrim=3, Slots=3, Files=2, MaxPairs=2, Depth=8, Emit=True, Variants=True,
-                                                  OpBudget=3), TM_INVS[:-1] + ["EmitFull"]),
+                                                  OpBudget=3), TM_INVS + ["EmitFull"]),
                      simulate="num=%d" % nw, extra=["-depth", "9"], seed=ctx.seed * 100 + 41,
                      label="TrimMapping %d simulated walks of length 8 (3x3 ids, 3 names, 2 files)" % nw))
 
     # ---- MSM life cycle ----------------------------------------------------------------------------------------------
-    two = "{%d, %d}" % (1 + ctx.seed % 3, 1 + (ctx.seed + 1) % 3)
+    two = "{%d}" % (1 + (ctx.seed + 1) % 3)
     ml = lambda **kw: dict(dict(S=3, MaxT=1, MaxLen=3, MaxLag=2, Data="{1, 2, 3}", AnyNew=False, Variants=False, Depth=4,
                                 Emit=False, OpBudget=0), **mg, **kw)
     jobs.append(dict(module="MSMLife", cwd=d, workers=2, coverage=True, timeout=1500, java_opts=("-Xmx3g",),
@@ -552,24 +561,25 @@ def run_part(ctx):
                      label="MSMLife exhaustive (VIEW HistView) catalogue assignment sets %s, depth %d"
                            % (two if quick else "{1, 2, 3}", 4 if quick else 5)))
     jobs.append(dict(module="MSMLife", cwd=d, workers=1, timeout=1500, java_opts=("-Xmx3g",),
-                     cfg=_cfg(d, "ml_op.cfg", ml(Depth=3, Emit=True, Variants=True), ["EmitInv"], [], "OpView"),
-                     label="MSMLife every operation in every state of depth <= 2 (VIEW OpView), all entry points"))
+                     cfg=_cfg(d, "ml_op.cfg", ml(Depth=3, Emit=True), ["EmitInv"], [], "TransView"),
+                     label="MSMLife every distinct transition (state before, operation, state after) of depth <= 3 "
+                           "(VIEW TransView)"))
     jobs.append(dict(module="MSMLife", cwd=d, workers=2, coverage=True, timeout=1500, java_opts=("-Xmx3g",),
                      cfg=_cfg(d, "ml_all.cfg", ml(S=2, MaxT=1 if quick else 2, MaxLen=3, Data="{}", AnyNew=True, Depth=2 if quick else 3),
                               ML_INVS, ML_PROPS, "HistView"),
                      label="MSMLife exhaustive over EVERY assignment set of the MSMObj scope S=2, any constructor configuration"))
     nm = 250 if quick else 2500
     jobs.append(dict(module="MSMLife", cwd=d, workers=1, timeout=1500, java_opts=("-Xmx2g",),
-                     cfg=_cfg(d, "ml_sim.cfg", ml(AnyNew=True, Depth=9, Emit=True, OpBudget=2), ML_INVS + ["EmitFull"]),
+                     cfg=_cfg(d, "ml_sim.cfg", ml(AnyNew=True, Variants=True, Depth=9, Emit=True, OpBudget=2), ML_INVS + ["EmitFull"]),
                      simulate="num=%d" % nm, extra=["-depth", "10"], seed=ctx.seed * 100 + 43,
                      label="MSMLife %d simulated life cycles of length 9 (any constructor configuration)" % nm))
     dc = 4 if quick else 5
     jobs.append(dict(module="MSMLife", cwd=d, workers=1, timeout=1500, java_opts=("-Xmx3g",),
-                     cfg=_cfg(d, "ml_cyc.cfg", ml(Data="{%d}" % (1 + ctx.seed % 3), Depth=dc, Emit=True, OpBudget=1), ["EmitFull"],
-                              [], "OpView"),
-                     label="MSMLife every life cycle of %d different operations on catalogue set %d (VIEW OpView)"
+                     cfg=_cfg(d, "ml_cyc.cfg", ml(Data="{%d}" % (1 + ctx.seed % 3), Depth=dc, Emit=True, OpBudget=1),
+                              ["EmitFull"], [], "TransView"),
+                     label="MSMLife every life cycle of %d different operations on catalogue set %d (VIEW TransView)"
                            % (dc, 1 + ctx.seed % 3)))
-    order = ["tm_mc", "tm_op", "tm_h2", "tm_sim", "ml_mc", "ml_op", "ml_all", "ml_sim", "ml_cyc"]
+    order = ["tm_mc", "tm_op", "tm_tr", "tm_h2", "tm_sim", "ml_mc", "ml_op", "ml_all", "ml_sim", "ml_cyc"]
     first = ["ml_mc", "tm_mc", "tm_op", "ml_cyc"]                       # the long ones start first
     sched = first + [n for n in order if n not in first]
     out = ctx.tlc_parallel([jobs[order.index(n)] for n in sched], max_par=4)
@@ -579,7 +589,7 @@ def run_part(ctx):
     # vacuity: every action of the two machines fired in the exhaustive runs
     for r, acts, gated, gates in ((res[0], ["Construct", "SetMapped", "SetOriginal", "Poke", "Copy", "Save", "WriteForeign", "Load",
                                             "Eq", "EqList", "EqOther", "Repr"], {}, tg),
-                                  (res[4], ["New", "FromAssignments", "Twin", "SetParam", "Fit", "Save", "Load", "Eq", "EqOther",
+                                  (res[5], ["New", "FromAssignments", "Twin", "SetParam", "Fit", "Save", "Load", "Eq", "EqOther",
                                             "Describe"], ML_GATED_ACTIONS, mg)):
         for a in acts:
             if a in gated and not gates[gated[a]]:
@@ -593,7 +603,7 @@ def run_part(ctx):
     t1 = time.time()
     # ---- replay: TrimMapping -------------------------------------------------------------------------------------------
     tm_cases = []
-    for k in (1, 2, 3):
+    for k in (1, 2, 3, 4):
         got = [p for t, p in res[k].prints if t == "CASE"]
         if not got:
             raise core.MachineryError("no histories from %s" % jobs[k]["label"])
@@ -621,7 +631,7 @@ def run_part(ctx):
     t2 = time.time()
     # ---- replay: MSM life cycle -------------------------------------------------------------------------------------------
     ml_cases = []
-    for k in (5, 7, 8):
+    for k in (6, 8, 9):
         got = [p for t, p in res[k].prints if t == "CASE"]
         if not got:
             raise core.MachineryError("no histories from %s" % jobs[k]["label"])
